@@ -39,6 +39,8 @@ THEOREMS = [
     "OllamaVerif.C03.pull_fail_preserves_store",
     "OllamaVerif.C03.pull_fail_preserves_names",
     "OllamaVerif.C03.pull_fail_blobs_partial",
+    "OllamaVerif.C03.retry_can_succeed",
+    "OllamaVerif.C03.stuck_plan_never_recovers",
     "OllamaVerif.C03.challenge_panics_iff",
     "OllamaVerif.C03.challenge_total_fixed",
     "OllamaVerif.C03.challenge_total_partial",
